@@ -1258,6 +1258,18 @@ CORPUS = [
     ((2, 0), 'OPAQUE_DATA', 'PreActive', {'op': 'GetAttributes', 'names': ['State', 'Cryptographic Usage Mask']}),
     ((1, 1), 'SYMMETRIC_KEY', 'Active', {'op': 'ModifyAttribute1', 'attr': {'name': 'Cryptographic Parameters', 'index': -1}}),
     ((1, 1), 'SYMMETRIC_KEY', 'Active', {'op': 'ModifyAttribute1', 'attr': {'name': 'Name', 'index': -1}}),
+    # witnesses of the findings still known (replayed on every run, DESIGN section 4)
+    ((1, 2), 'SYMMETRIC_KEY', 'Active', {'op': 'Encrypt', 'params': SYM_PARAMS[2], 'iv': b'\x01' * 8, 'data': b'abc'}),
+    ((1, 2), 'SYMMETRIC_KEY', 'Active', {'op': 'Decrypt', 'params': SYM_PARAMS[2], 'iv': b'\x01' * 16, 'data': b'\x07' * 5}),
+    ((1, 2), 'SYMMETRIC_KEY', 'Active', {'op': 'Decrypt', 'params': SYM_PARAMS[2], 'iv': b'\x01' * 16, 'data': b'\x07' * 16}),
+    ((1, 4), 'SYMMETRIC_KEY', 'Active', {'op': 'Decrypt', 'params': SYM_PARAMS[6], 'iv': b'\x01' * 12, 'data': b'abc', 'aad': b'aad', 'tag': b'\x00' * 16}),
+    ((1, 2), 'PRIVATE_KEY', 'Active', {'op': 'Sign', 'params': SIGN_PARAMS[6], 'data': b'msg'}),
+    ((1, 2), 'SYMMETRIC_KEY', 'Active', {'op': 'DeriveKey', 'otype': 'SYMMETRIC_KEY', 'uids': 'TARGET', 'method': 'PBKDF2',
+                                         'dp': {'params': {'hashing_algorithm': HASH.SHA_256}, 'salt': b'salt', 'iterations': 0}, 'ta': DERIVE_TA}),
+    ((1, 2), 'SYMMETRIC_KEY', 'Active', {'op': 'DeriveKey', 'otype': 'SYMMETRIC_KEY', 'uids': 'TARGET', 'method': 'ENCRYPT',
+                                         'dp': {'params': SYM_PARAMS[2], 'data': b'\x01' * 16, 'iv': b'\x02' * 8}, 'ta': DERIVE_TA}),
+    ((1, 2), 'SYMMETRIC_KEY', 'Active', {'op': 'DeriveKey', 'otype': 'SYMMETRIC_KEY', 'uids': 'TARGET', 'method': 'ENCRYPT',
+                                         'dp': {'params': SYM_PARAMS[2]}, 'ta': DERIVE_TA}),
 ]
 
 
@@ -1267,7 +1279,10 @@ def run_corpus(grid, ctx):
         try:
             uid = add_object(drv, obj_spec(t, st, 'all', names=1), 1)
             r = dict(req)
-            r['uid'] = uid
+            if r.get('uids') == 'TARGET':
+                r['uids'] = [uid]
+            else:
+                r['uid'] = uid
             grid.cell(drv, r, ver, observe_store(drv), desc='corpus')
         finally:
             drv.close()
